@@ -83,7 +83,7 @@ func init() {
 				W:       weights(Weights{"commit": 20, "add": 18, "add-all": 6, "junk": 0}),
 				Oracles: []HistOracle{orC02}}
 		})
-	checks["C07"] = histCheck("C07", []string{"C07.diff_fromTree", "C07.diff_fromTree_build", "C07.fromTree_nil_iff", "C07.fold_ok", "C06.getEntry_correct"}, histRule,
+	checks["C07"] = histCheck("C07", []string{"C07.diff_fromTree", "C07.diff_fromTree_build", "C07.fromTree_nil_iff", "C07.fold_ok", "C06.getEntry_correct", "C07.diff_nil_iff", "C07.diff_exact", "C07.getNode_build", "C07.isNew_build", "C07.getNodeAux_build"}, histRule,
 		func(ctx *Ctx) *HistCfg {
 			return &HistCfg{Prop: "C07", Cases: tierN(ctx, 200, 2000), MinSteps: 8, MaxSteps: 30,
 				W:       weights(Weights{"commit": 16, "status": 14, "add": 18, "rm": 6, "restore": 6, "junk": 0}),
